@@ -99,4 +99,25 @@ theorem search_tie (mayContain : TableM → Bytes → Bool) (s : DB.St) (k : Byt
   simp only [hs]
   rfl
 
+
+/-! ### DB.rawset and DB.flushImmutable: the order of their effects -/
+
+/-- `rawset`: the whole batch goes into the memtable first; only then, and only if the memtable has reached the threshold,
+    it is frozen, published together with its successor under `db.mu`, and handed to the flusher *after* `db.mu` is
+    released -/
+theorem rawset_table (size threshold : Nat) :
+    GenDB.rawset size threshold [] =
+      if threshold ≤ size then
+        ["memtable.set batch", "memtable.freeze", "db.mu.Lock", "immutables.PushBack", "memtable = reset", "db.mu.Unlock", "flushC <- imt"]
+      else ["memtable.set batch"] := by
+  unfold GenDB.rawset
+  by_cases h : threshold ≤ size <;> simp [h]
+
+/-- `flushImmutable`: the table is added to L0 before the wal is deleted; a failure of either step panics (`none`) -/
+theorem flushImmutable_table (ff df : Bool) :
+    GenDB.flushImmutable ff df [] =
+      if ff then none else if df then none else some ["manager.flushToL0", "wal.Delete"] := by
+  unfold GenDB.flushImmutable
+  cases ff <;> cases df <;> simp
+
 end DBTie
